@@ -5,6 +5,7 @@ CONSTANTS Operands <- OperandsA
  LongOperands <- OperandsA
  LongOps <- OpsAll
  LongPres <- PresAll
+ ChainPairwise = TRUE
  RightTakesRest = TRUE
  GoRemainder = TRUE
  Emit = FALSE
